@@ -484,6 +484,12 @@ func GenSharedCall(r *lib.Rng) Call {
 		"alt.Decompose", "alt.Generify", "rec.Recompose", "oj.Unmarshal", "pretty.JSON", "pretty.SEN", "oj.JSON.opt",
 		"sen.String.opt", "oj.Validate", "oj.Tokenize"})
 	c := Call{Op: op, Path: r.Intn(64), Val: int64(r.Intn(100))}
+	if op == "jp.First" {
+		// the first match of a wildcard or descent over a map depends on map order
+		for strings.Contains(ExprTexts[c.Path%len(ExprTexts)], "..") || strings.Contains(ExprTexts[c.Path%len(ExprTexts)], ".*") {
+			c.Path = r.Intn(64)
+		}
+	}
 	switch op {
 	case "jp.Get", "jp.First", "jp.Has", "jp.Set", "jp.Del":
 		d := sampleDoc(r)
